@@ -348,7 +348,14 @@ func (ty *ObjectType) Merge(other ExprType) ExprType {
 		for n, l := range ty.Props {
 			props[n] = l
 		}
-		for n, r := range other.Props {
+		// Visit props in sorted order since the result of merging types into mapped type depends on the order
+		names := make([]string, 0, len(other.Props))
+		for n := range other.Props {
+			names = append(names, n)
+		}
+		sort.Strings(names)
+		for _, n := range names {
+			r := other.Props[n]
 			if l, ok := props[n]; ok {
 				props[n] = l.Merge(r)
 			} else {
